@@ -12,6 +12,7 @@ from .c02 import Walker
 
 
 class C07(ProgramProperty):
+    configs = ('A', 'C', 'D')
     id = 'C07'
     technique = ('grammar-based property testing of f-string bodies (pre-PEP 701 rules) with a differential oracle: CPython JoinedStr / FormattedValue structure, '
                  'inner-expression positions, and re-parsing source[range]')
@@ -83,6 +84,18 @@ class C07(ProgramProperty):
         d = ref.first_diff(ref.erase(want), ref.erase(got))
         if d:
             return Failure('tree_differs:' + norm_path(d[0]), text=case['text'], path=d[0], reference=trim(d[1]), got=trim(d[2]))
+        # the decomposition is the same in every feature configuration: a third of the literals also go through the full-lexer
+        # build (the nested field parser sees comment / non-logical-newline tokens there) and the num-bigint build
+        import zlib
+        other = {0: 'C', 1: 'D'}.get(zlib.crc32(case['text'].encode('utf-8')) % 6)
+        if other:
+            ctx.count('also_in_build_' + other)
+            s2 = ctx.sut(other).call('parse', src=case['text'], mode=case['mode'])
+            if 'ok' not in s2:
+                return Failure(('rejects_valid:' if 'err' in s2 else 'panic_or_crash:') + other, text=case['text'], reply=str(s2)[:400])
+            d = ref.first_diff(ref.erase(got), ref.erase(s2['ok']))
+            if d:
+                return Failure('tree_differs_between_builds:%s:%s' % (other, norm_path(d[0])), text=case['text'], path=d[0], default_build=trim(d[1]), other_build=trim(d[2]))
         data = case['text'].encode('utf-8')
         w = Walker(data, self, case, ctx)
         w.structural(got, '', None, None, None)
